@@ -174,24 +174,29 @@ def Ht.insert (h : Ht α) (ve : VEq α) (rve : Option (VEq α)) (check wantMatch
       else (.ok (if wantMatch then some v else none), h2)
     else (.ok (if wantMatch then some v else none), h1)
 
+/-- the unlinking part of `lyht_remove_with_resize_cb`: record `ri` (predecessor `prev`, `NO` if it is the first of its
+chain) leaves the chain of the bucket of `hash` and becomes the head of the free list; `--ht->used`. -/
+def Ht.unlink (h : Ht α) (ri prev : Nat) (hash : UInt32) : Ht α :=
+  let b := h.idx hash
+  let r := h.recAt ri
+  let hl := h.hl b
+  let (hlists, recs) :=
+    if prev = NO then
+      (h.hlists.setIfInBounds b (r.next, if r.next = NO then NO else hl.2), h.recs)
+    else
+      let p := h.recAt prev
+      (if r.next = NO then h.hlists.setIfInBounds b (hl.1, prev) else h.hlists,
+       h.recs.setIfInBounds prev { p with next := r.next })
+  -- rec->next = ht->first_free_rec; ht->first_free_rec = rec_idx
+  let recs := recs.setIfInBounds ri { r with next := h.firstFree }
+  { h with hlists := hlists, recs := recs, firstFree := ri, used := h.used - 1 }
+
 /-- `lyht_remove_with_resize_cb(ht, val_p, hash, resize_val_equal)` -/
 def Ht.remove (h : Ht α) (ve : VEq α) (rve : Option (VEq α)) (v : α) (hash : UInt32) : Res α × Ht α :=
   match h.findRec ve true v hash with
   | none => (.notfound, h)
   | some (ri, prev) =>
-    let b := h.idx hash
-    let r := h.recAt ri
-    let hl := h.hl b
-    let (hlists, recs) :=
-      if prev = NO then
-        (h.hlists.setIfInBounds b (r.next, if r.next = NO then NO else hl.2), h.recs)
-      else
-        let p := h.recAt prev
-        (if r.next = NO then h.hlists.setIfInBounds b (hl.1, prev) else h.hlists,
-         h.recs.setIfInBounds prev { p with next := r.next })
-    -- rec->next = ht->first_free_rec; ht->first_free_rec = rec_idx
-    let recs := recs.setIfInBounds ri { r with next := h.firstFree }
-    let h1 : Ht α := { h with hlists := hlists, recs := recs, firstFree := ri, used := h.used - 1 }
+    let h1 := h.unlink ri prev hash
     if h1.resize = 2 then
       let rr := (h1.used * 100) / h1.size
       if rr < LYHT_SHRINK_PERCENTAGE ∧ h1.size > LYHT_MIN_SIZE then
